@@ -99,5 +99,8 @@ Qed.
 Lemma xsi_is_skipped : is_skip_uri uri_xsi = true.
 Proof. vm_compute. reflexivity. Qed.
 
+Lemma meta_skipped : forallb is_skip_uri meta_uris = true.
+Proof. vm_compute. reflexivity. Qed.
+
 Lemma xsd_is_w3 : starts_with s_w3 uri_xsd = true.
 Proof. vm_compute. reflexivity. Qed.
